@@ -593,6 +593,7 @@ impl C08 {
         let adversarial = r.chance(1, 2);
         let cyclic = r.chance(1, 8);
         let mut o = WlOpts::default();
+        o.bad_expectations = true;
         o.gen = GenOpts { adversarial, cyclic, allow_now: true, ..Default::default() };
         let mut wl = gen_workload(&mut r, &o);
         // unique rule names per rules file, for attribution
